@@ -683,6 +683,8 @@ def run_grid(ctx, scen_sets, obs_mask, prop, chunk=None, timeout=240, variant="h
             sig = "%s:%s:%s:%s%s" % (ev.get("e", "?"), name, st.get("fam", "?"), sig_detail(ev, rj), sig_suffix(ev, (rj["raw_req"] or [""])[0]))
             if name == "obs-nodal" and ev.get("e") == "finish" and prop == "C09":
                 owner = "C09"         # the surrogate of a constructed grid differs from the one-batch surrogate: C01 and C09 both own it
+            if prop == "C11" and ev.get("o") == 2 and owner in ("C09", "C07", "C08"):
+                owner = "C11"         # slot 2 holds the copy: a candidate, promotion or refinement outcome that differs from the specification's is a copy that is not complete
             if name == "need" and owner == "C08" and ev.get("e") in ("surp", "surpl") and prop == "C07":
                 owner = "C07"         # a surplus refinement under level limits that does not propose the documented children: C07 and C08 both own it
             if own_all:
